@@ -114,8 +114,8 @@ pub fn cases(ctx: &Ctx) -> Vec<Case> {
     }
     // sampled long sequences, 4 layer combos
     let n = match (k.is_prod(), ctx.quick()) {
-        (true, true) => 4000,
-        (true, false) => 150_000,
+        (true, true) => 12000,
+        (true, false) => 300_000,
         (false, true) => 3000,
         (false, false) => 60_000,
     };
